@@ -19,6 +19,9 @@ from bibtexparser.splitter import Splitter
 from bibtexparser.model import Entry, ParsingFailedBlock, DuplicateBlockKeyBlock, DuplicateFieldKeyBlock
 
 
+SIGMA_WS = '@{},=a \n\r\x0c\t'
+
+
 def drv(text):
     return Splitter(text).split()
 
@@ -177,7 +180,7 @@ def main():
                   "templates": f"B1 + X + B2 and B1 + X for B1,B2 in {sorted(BLOCKS)} (+ newline variants), X every text of length 0..{LT}"}
     chk.bounds["inside bodies"] = f"X of length 1..{LI} inside @comment / @preamble / @string bodies, field values (bare, braced, quoted) and the key position"
     chk.assumptions = ["characters outside the alphabet are outside the claim (the alphabet has one representative per character class of the mark regex: each mark character, backslash, '@', a word character, blank, newline, '#')",
-                       "CR / tab are not in the alphabet (blank and newline are)",
+                       "CR, tab and form feed occur in the separate whitespace family (shorter texts); other Unicode whitespace is outside the claim",
                        "field-line clause: checked for fields with a non-empty key followed by optional whitespace and '='"]
     chk.expected_vacuity = ["failed-block-present", "two-blocks"]
     for L in range(LG, -1, -1):
@@ -196,6 +199,19 @@ def main():
     for nm, (pre, post) in INSIDE.items():
         for L in range(LI, 0, -1):
             chk.add_task(f"inside-{nm}-X{L}", task, parts=[("lit", pre), ("sym", L, SIGMA_S), ("lit", post)], label=f"inside-{nm}")
+    # other whitespace: CR, form feed, tab are whitespace for the tiling clause but are NOT line breaks for start_line
+    LW = 4 if chk.tier == "quick" else 5
+    chk.bounds["whitespace family"] = f"texts of length 0..{LW} over {SIGMA_WS!r}; B1 + X (+ B2) with X of length 1..2 over it"
+    for L in range(LW, -1, -1):
+        if L == LW:
+            for a in SIGMA_WS:
+                chk.add_task(f"ws-garbage-L{L}-{a!r}", task, parts=[("lit", a), ("sym", L - 1, SIGMA_WS)], label="ws-garbage")
+        else:
+            chk.add_task(f"ws-garbage-L{L}", task, parts=[("sym", L, SIGMA_WS)], label="ws-garbage")
+    for n1 in ("entry", "comment", "free"):
+        for L in (2, 1):
+            chk.add_task(f"ws-tmpl-{n1}+X{L}+string", task, parts=[("lit", BLOCKS[n1]), ("sym", L, SIGMA_WS), ("lit", "\nx\n" + BLOCKS["string"])], label="ws-tmpl")
+            chk.add_task(f"ws-tmpl-X{L}+{n1}", task, parts=[("sym", L, SIGMA_WS), ("lit", "y" + "\n" + BLOCKS[n1])], label="ws-tmpl")
     chk.run()
 
 
